@@ -11,7 +11,7 @@ from vlib.framework import BaseCheck, CaseResult
 
 IDLE, OPEN, BUSY, CLOSED = 1, 2, 3, 4
 SERIAL_SKELETONS = ['open', 'one', 'two', 'after-timeout', 'chunked', 'timeout-in-write', 'expired-on-arrival',
-                    'retry-from-handler']
+                    'retry-from-handler', 'request-during-reconnect']
 MUX_SKELETONS = ['open', 'one', 'three', 'timed-out+one', 'queued', 'ping', 'silent-inflight', 'requests-while-opening',
                  'retry-from-handler']
 FAULTS = ['error', 'eof', 'refuse', 'silence']
@@ -44,7 +44,7 @@ PLAN = build_plan()
 class C08(BaseCheck):
   ID = 'C08'
   LEVEL = 'fault_enumeration'
-  RULE = ('enumerated space = {serial Thrift transport x skeletons open/one/two/after-timeout/chunked/timeout-in-write (deadline fires inside a blocked partial write)/expired-on-arrival (deadline already past when the request reaches the transport)/retry-from-handler (the error handler of a failed request hands a follow-up to the transport synchronously, below the timeout sink), '
+  RULE = ('enumerated space = {serial Thrift transport x skeletons open/one/two/after-timeout/chunked/timeout-in-write (deadline fires inside a blocked partial write)/expired-on-arrival (deadline already past when the request reaches the transport)/retry-from-handler (the error handler of a failed request hands a follow-up to the transport synchronously, below the timeout sink)/request-during-reconnect (a second request reaches the transport while it re-establishes its connection after a timeout, 0.2 s connect latency), '
           'ThriftMux transport x skeletons open(incl. initial ping)/one/three concurrent/timed-out+one/'
           'queued(stalled writer)/ping/requests-while-opening/silent-inflight (peer goes silent with a request in flight and a timed-out one unacknowledged)} + {reply and close (FIN/RST) in one instant on request 0/1/2} x connection ordinal {0,1} x op {connect; send 0-3; recv 0-9} x fault '
           '{exception, EOF, refusal, silence}; quick and thorough both sweep it completely (thorough adds '
@@ -64,7 +64,7 @@ class C08(BaseCheck):
   REQUIRED_ANCHORS = ANCHORS
   REQUIRED_CLASSES = ('thrift', 'mux', 'fault:connect', 'fault:send', 'fault:recv', 'kind:error', 'kind:eof',
                       'kind:refuse', 'kind:silence', 'reconnect-fault', 'probe', 'ping-silence', 'reply-and-close-same-instant', 'timeout-in-write', 'silent-with-inflight', 'requests-while-opening',
-                      'expired-on-arrival', 'retry-from-handler')
+                      'expired-on-arrival', 'retry-from-handler', 'request-during-reconnect')
   ASSUMPTIONS = ('a silence fault (peer stops answering without closing) legitimately leaves the transport '
                  'open; only the probe clause applies then',)
   QUICK_WALL = 180
@@ -253,6 +253,19 @@ class C08(BaseCheck):
       elif sk == 'chunked':
         request(act={'delay': 0.001, 'chunks': [(1, 0.001), (3, 0.001), (5, 0.002), (7, 0.0)]})
         env.advance(1.5)
+      elif sk == 'request-during-reconnect':
+        # a request times out against a silent peer, the transport re-establishes its connection and
+        # that takes a while (a network round trip); a second request reaches the transport meanwhile
+        # (a singleton pool, or any caller that does not look at the state first, hands it over)
+        classes.add('request-during-reconnect')
+        srv.sim.connect_latency = 0.2
+        request(T=0.05, act={'drop': True})
+        env.advance(0.06 + 0.1)
+        request(T=600.0, entry=top.next_sink)
+        step(0.5, 'after the reconnect')
+        srv.sim.connect_latency = 0.0005
+        request()
+        env.advance(1.5)
       elif sk == 'retry-from-handler':
         request()
         env.advance(1.5)
@@ -394,6 +407,13 @@ class C08(BaseCheck):
                                                               type(r['deliveries'][0][2].error).__name__), facts)
     state = transport.state
     check_state('at the end')
+    # a transport that has raised its fault signal has been given up by its owners: it stays closed
+    out.obligations += 1
+    if faults and state in (OPEN, BUSY):
+      out.violate('state:open-after-fault-signal', 'the transport raised its fault signal (%r) and reports state %s at the end '
+                  '(connections the peer still sees open: %d)' % (
+                    faults[0], {2: 'Open', 3: 'Busy'}[state],
+                    len([c for c in srv.sim.conns if not c.client_closed])), facts)
     if False and hard:
       out.obligations += 2
       # the connection that the fault hit is dead; unless the transport has since
